@@ -287,15 +287,18 @@ func (h *baseHandler) flush() {
 	numUnsentMessages := func() int {
 		return len(h.lines) + len(h.serverMessages) + len(h.maprMessages)
 	}
-	for i := 0; i < 10; i++ {
-		if numUnsentMessages() == 0 {
-			dlog.Server.Debug(h.user, "ALL lines sent", fmt.Sprintf("%p", h))
-			return
-		}
+	// Wait until the client has taken everything which is queued. Giving up
+	// early would let the close message overtake lines still in the queue.
+	for numUnsentMessages() > 0 {
 		dlog.Server.Debug(h.user, "Still lines to be sent")
-		time.Sleep(time.Millisecond * 10)
+		select {
+		case <-h.done.Done():
+			dlog.Server.Warn(h.user, "Some lines remain unsent", numUnsentMessages())
+			return
+		case <-time.After(time.Millisecond * 10):
+		}
 	}
-	dlog.Server.Warn(h.user, "Some lines remain unsent", numUnsentMessages())
+	dlog.Server.Debug(h.user, "ALL lines sent", fmt.Sprintf("%p", h))
 }
 
 func (h *baseHandler) shutdown() {
